@@ -958,6 +958,8 @@ FILTERS = [  # (name, argument generators) accepted by the default environment
 
 def gen_lambda_src(r: Any, nparams: int) -> str:
     ps = r.sample(["i", "j", "it", "v"], nparams)
+    if not ps:  # `() => e`: a syntax error since /repo 4122b4d, generated for the error path
+        return "() => " + r.choice([gen_prim_src(r, 0, rng_ok=False), gen_bool_src(r, 2)])
     body_vars = [f"{ps[0]}.{r.choice(NAMES)}", ps[0], ps[-1]]
     k = r.random()
     if k < 0.4:
@@ -1002,7 +1004,7 @@ def gen_filter_src(r: Any, *, valid: bool) -> str:
                             + (gen_lambda_src(r, 1).replace("(", "").replace(")", "")
                                if r.random() < 0.3 else gen_prim_src(r, 1)))
             else:
-                args.append(gen_lambda_src(r, r.choice([1, 1, 2, 2, 3])))
+                args.append(gen_lambda_src(r, r.choice([0, 1, 1, 2, 2, 3])))
     if not args:
         return name
     sep = r.choice([", ", ", ", ",", " , "])
@@ -1471,6 +1473,7 @@ EXPR_CORPUS = [
     ("fexpr", "a | upcase if b else c | downcase || append: 'x' | prepend: 'y'"),
     ("fexpr", "a if b || f || g"), ("fexpr", "a if (not b) and c else nil"), ("fexpr", "(a..b)"),
     ("fexpr", "(['true']..empty)"), ("fexpr", "9007199254740993"), ("fexpr", "1e400"),
+    ("fexpr", "x | f: () => 1"), ("fexpr", "x | where: () => a == not b, 2"), ("fexpr", "x | f: k: () => 1"),
     ("fexpr", "x | f: (a b) => 1"), ("fexpr", "x | f: k: 1 => 2"), ("fexpr", "x |"), ("fexpr", "x | f: a: "),
     ("bool", "(not a) and b"), ("bool", "not a and b"), ("bool", "(a and b) and c"), ("bool", "a and (b and c)"),
     ("bool", "(a == b) == c"), ("bool", "a == (b and c)"), ("bool", "(a and not b) or c"),
